@@ -310,9 +310,20 @@ pub fn gen_schema(r: &mut Rng, depth: usize, cx: &Ctx) -> Value {
         }
         46..=51 => {
             if !cx.defs.is_empty() {
-                // OpenAPI-style: a bare reference, or allOf[ref] carrying annotations
-                if r.chance(1, 2) {
-                    return gen_ref(r, cx);
+                // OpenAPI-style: a bare reference, {$ref, nullable: true} (what
+                // schemars emits for Option<T> of a referenceable T outside
+                // definitions), or allOf[ref] carrying annotations
+                match r.below(5) {
+                    0 | 1 => return gen_ref(r, cx),
+                    2 => {
+                        let mut v = gen_ref(r, cx);
+                        v["nullable"] = json!(r.chance(5, 6));
+                        if r.chance(1, 4) {
+                            v["description"] = json!("ignored sibling");
+                        }
+                        return v;
+                    }
+                    _ => {}
                 }
                 let mut m = Map::new();
                 m.insert("allOf".into(), json!([gen_ref(r, cx)]));
@@ -620,6 +631,9 @@ pub fn gen_instance(r: &mut Rng, s: &Value, defs: &[(String, Value)], depth: usi
         _ => return Value::Null,
     };
     if m.contains_key("$ref") {
+        if m.get("nullable") == Some(&json!(true)) && r.chance(1, 3) {
+            return Value::Null;
+        }
         return match deref(s, defs) {
             Some(t) => gen_instance(r, t, defs, depth + 1),
             None => Value::Null,
@@ -781,6 +795,7 @@ pub fn mutations(r: &mut Rng, s: &Value, defs: &[(String, Value)], inst: &Value,
         _ => return,
     };
     if m.contains_key("$ref") {
+        out.push(Value::Null);
         if let Some(t) = deref(s, defs) {
             mutations(r, t, defs, inst, depth + 1, out);
         }
